@@ -68,6 +68,8 @@ type C struct {
 	excepted    []*Exception
 	seen        map[string]bool
 	la          *lockAnalysis
+	retAliasMemo map[*ssa.Function]map[int]string
+	inPlaceMemo  map[string]string
 	preMemo     map[*ssa.Function][]dfact
 	preBusy     map[*ssa.Function]bool
 	bce         map[string]bool
